@@ -314,7 +314,7 @@ theorem getitem_col (A : Op R) (hg : Good A) (b : GIx) (j : Int) :
     | some p =>
       exact GRes.indexVec_agree A.rows _ _
         (fun t ht => colVec_eq A hg p t (GRes.wrap_lt _ _ _ hw) ht) b
-  cases b <;> simpa only [getitem, npIndex] using key
+  cases b <;> (simp only [getitem, npIndex]; exact key)
 
 /-- `A[i, b]` for `b` a slice, index array or list -/
 theorem getitem_row (A : Op R) (hg : Good A) (hr : A.RealTyped) (i : Int) (b : GIx)
@@ -334,8 +334,8 @@ theorem getitem_row (A : Op R) (hg : Good A) (hr : A.RealTyped) (i : Int) (b : G
         (fun t ht => rowVec_eq A hg hr p t (GRes.wrap_lt _ _ _ hw) ht) b
   cases b with
   | int j => exact absurd rfl (hb j)
-  | ix s => simpa only [getitem, npIndex] using key
-  | list l => simpa only [getitem, npIndex] using key
+  | ix s => simp only [getitem, npIndex]; exact key
+  | list l => simp only [getitem, npIndex]; exact key
 
 /-- `A[s0, s1]`, not both index arrays -/
 theorem getitem_ix_ix (A : Op R) (hg : Good A) (s0 s1 : Ix)
@@ -359,10 +359,10 @@ theorem getitem_ix_ix (A : Op R) (hg : Good A) (s0 s1 : Ix)
         exact agree_sliced A hg s0 s1 rs cs h0 h1 (by simpa [h0] using hn.1)
           (by simpa [h1] using hn.2)
   cases s0 with
-  | slice a b c => cases s1 <;> simpa only [getitem, npIndex] using key
+  | slice a b c => cases s1 <;> (simp only [getitem, npIndex]; exact key)
   | arr l0 =>
     cases s1 with
-    | slice a b c => simpa only [getitem, npIndex] using key
+    | slice a b c => simp only [getitem, npIndex]; exact key
     | arr l1 => exact absurd hp (by simp [NoArrPair])
 
 /-- `A[[i…], [j…]]`, lists of equal length -/
